@@ -486,6 +486,39 @@ ARG_TUPLES = [
 ]
 
 
+PRELUDE_REG = "REG = {}; reg = function(...) for _, f in ipairs({...}) do REG[#REG + 1] = f end end "   # same line 1 as PRELUDE
+
+SEQ_DRIVER = """
+-- dump histories: the strip argument as a dimension, dumps of related functions interleaved (some stripped and
+-- thrown away), then the first dump of every function must still be what string.dump gives, and the upvalue names of
+-- the function and of its reloaded image must be unchanged
+local fs, seen = {}, {}
+local function add(f) if type(f) == "function" and not seen[f] and #fs < 40 then seen[f] = true; fs[#fs + 1] = f end end
+for _, f in ipairs(FS) do add(f) end
+for _, f in ipairs(FS) do pcall(f, 1, 2) end
+for _, f in ipairs(REG) do add(f) end
+local function names(f)
+  local t = {}
+  for k = 1, 300 do local n = debug.getupvalue(f, k); if n == nil then break end; t[#t + 1] = tostring(n) end
+  return table.concat(t, ",")
+end
+local d0, n0 = {}, {}
+for i, f in ipairs(fs) do d0[i] = string.dump(f); n0[i] = names(f) end
+for i, f in ipairs(fs) do
+  emit("strip-arg", i, string.dump(f, true) == d0[i], string.dump(f, false) == d0[i], string.dump(f, nil) == d0[i],
+       string.dump(f, "x") == d0[i], string.dump(f, 0) == d0[i], string.dump(f, {}) == d0[i], string.dump(f) == d0[i])
+end
+for round = 1, 2 do
+  for j = #fs, 1, -1 do string.dump(fs[j], (j + round) % 2 == 0) end
+  for i, f in ipairs(fs) do
+    local g = load(d0[i], "x", "b")
+    emit("stable", round, i, string.dump(f) == d0[i], names(f) == n0[i], g ~= nil and names(g) == n0[i],
+         g ~= nil and string.dump(g) == d0[i], g ~= nil and string.dump(g, true) == d0[i], n0[i])
+  end
+end
+emit("functions", #fs)
+"""
+
 PRELUDE = "reg = function() end "   # the lua engine has no reg(); same line 1 in both variants
 
 
@@ -1234,6 +1267,48 @@ def run(tier, seed):
     if bout:
         ck.sample({"behaviour_direct": bout[0][:600]})
 
+    # ------------------------------------------------ stage B2: dump histories (strip argument, interleaved dumps)
+    nseq = min(len(good_chunks), 60 if quick else 600)
+    slines = ["q%d %s" % (i, (PRELUDE_REG + chunks[i] + SEQ_DRIVER).encode().hex()) for i in good_chunks[:nseq]]
+    sout = vlib.run_lines_resilient(gvh, ["lua"], slines, per_case_timeout=120)
+    LABELS = {"strip-arg": ["string.dump(f, true) differs from string.dump(f) (strip is documented as ignored)", "string.dump(f, false) differs from string.dump(f)",
+                            "string.dump(f, nil) differs", "string.dump(f, 'x') differs", "string.dump(f, 0) differs", "string.dump(f, {}) differs",
+                            "two successive string.dump(f) differ"],
+              "stable": ["string.dump(f) changed after dumps of related functions (dumping is not deterministic)",
+                         "debug.getupvalue names of f changed after dumps of related functions",
+                         "upvalue names of load(string.dump(f)) differ from those of f",
+                         "string.dump(load(d)) differs from the first dump d of f", "string.dump(load(d), true) differs from d"]}
+    seq_fail = 0
+    for n, o in enumerate(sout):
+        i = good_chunks[n]
+        f = o.split(" ")
+        ck.case("seq:" + chunks[i], True)
+        ck.count("sequences:status:" + (f[1] if len(f) > 1 else "?"))
+        tr = ([x for x in f if x.startswith("T:")] or ["T:-"])[0][2:]
+        bad = None
+        if len(f) < 2 or f[1] != "ok":
+            bad = "the dump-history driver did not complete: " + (f[1] if len(f) > 1 else "?")
+        else:
+            for ev in tr.split(";"):
+                v = ev.split(",")
+                tag = bytes.fromhex(v[0][1:]).decode("latin-1") if v and v[0].startswith("s") and v[0] != "s-" else ""
+                if tag in LABELS:
+                    ck.count("sequences:" + tag + "-events")
+                    flags = [x for x in v[1:] if x in ("b0", "b1")]
+                    for k, x in enumerate(flags):
+                        if x == "b0" and bad is None:
+                            bad = LABELS[tag][k] if k < len(LABELS[tag]) else tag + " predicate %d" % k
+                            ck.count("sequences:failed:" + tag + ":%d" % k)
+                elif tag == "functions":
+                    ck.count("sequences:functions-dumped", int(v[1][1:]) if len(v) > 1 and v[1].startswith("i") else 0)
+        if bad:
+            seq_fail += 1
+            s_fail += 1
+            if seq_fail <= 3:
+                ck.violation("dump history: " + bad, {"kind": "Go!=S", "engine": "lua", "chunk": chunks[i], "driver_sequence": SEQ_DRIVER, "impl": o[:1500],
+                                                       "theorems": ["C13_dump_deterministic_injective", "C13_dump_load_dump_stable"]})
+    ck.log("stage B2: %d dump histories, failures %d" % (len(sout), seq_fail))
+
     # ------------------------------------------------ stage C: malformed streams
     dumps.sort(key=lambda x: len(x[0]))
     picks = []
@@ -1466,7 +1541,9 @@ def run(tier, seed):
              "bytes of string.dump vs extracted marshal(refactor_unit(export)), export(load(dump)) vs model, dump(load(dump f)) = dump f, independent Python decoding "
              "of the dump, first-use order/slimness/lookup preservation of the constants; (B) each chunk run twice on %d argument tuples per closed function, "
              "f directly vs load(string.dump(f)): emit traces, results, error values with line info (1 in 3 inside a cpu/mem-limited context); "
-             "(C) malformed streams (truncation at every field boundary and random, single bit flips, special values in every length field, type bytes; all truncations "
+             "(B2) dump histories in Lua on the closed and nested functions of a chunk: strip argument true/false/nil/string/number/table (ignored by golua: same bytes), "
+             "dumps of related functions (enclosing, nested, sibling; alternately stripped and thrown away) interleaved, then string.dump(f), debug.getupvalue names of f and of "
+             "load(dump f), and the re-dump of the reloaded function must equal the first observations; (C) malformed streams (truncation at every field boundary and random, single bit flips, special values in every length field, type bytes; all truncations "
              "and all bit flips of the smallest dump) through UnmarshalConst (budgets 0/small/exact/large) vs the model and through load(s,name,'b'), each in a child process; "
              "non-trivial = every closure / stream counts, behaviour cases only if events were emitted; distinct by dump bytes / stream bytes / chunk text" % (nchunks, ncorpus, 6 if quick else len(ARG_TUPLES)),
         trusted_base=TRUSTED,
@@ -1500,7 +1577,10 @@ def replay(path, seed):
                     fl.append("dump not stable")
                 _, mo, _ = run_oracle(oracle, ["U unit " + unit, "u dumpu %s" % hz(p["idx"])])
                 print("closure %d: predicates %s; model bytes equal: %s" % (j, fl or "ok", len(mo) > 1 and mo[1].split(" ")[2:3] == [p["d1"]]))
-        if r.get("engine") == "lua":
+        if r.get("engine") == "lua" and r.get("driver_sequence"):
+            o = vlib.run_lines_resilient(gvh, ["lua"], ["q " + (PRELUDE_REG + r["chunk"] + r["driver_sequence"]).encode().hex()])
+            print("history:", o[0][:3000])
+        elif r.get("engine") == "lua":
             o = vlib.run_lines_resilient(gvh, ["lua"], ["d " + (PRELUDE + r["chunk"] + r["driver_direct"]).encode().hex(), "r " + (PRELUDE + r["chunk"] + r["driver_reload"]).encode().hex()])
             print("direct:", o[0][:1500])
             print("reload:", o[1][:1500])
